@@ -1,5 +1,6 @@
 """C20 -- demand, resilience and pump-cost metrics equal their documented formulas."""
 import ast
+import math
 import re
 
 import sympy as sp
@@ -7,21 +8,30 @@ import sympy as sp
 from ..src import walk, calls, call_name, dotted, const, loc, unparse, norm, AnchorError, ExtractError, last_attr
 from ..symx import SymExec, Opaque, State, is_zero
 from ..cfg import CFG
+from ..peval import Evaluator, Obj, Unknown, Raised, Returned
 
 HYDM = "wntr/metrics/hydraulic.py"
 ECON = "wntr/metrics/economic.py"
 MISC = "wntr/metrics/misc.py"
+ELEM = "wntr/network/elements.py"
 
 EXPLANATION = (
-    "Formula extraction (AST -> sympy, pandas selections kept as uninterpreted leaves, reference formulas written in the same syntax and "
-    "passed through the same extractor) of expected_demand, average_expected_demand, _lcm, water_service_availability, todini_index, "
-    "modified_resilience_index, tank_capacity, population, pump_power/energy/cost and the maximum-pump-power formula; CFG rule 'a loop whose "
-    "body always leaves on the first iteration' over all of wntr/metrics (Euclid's gcd must iterate); every demand_timeseries_list.at call in "
-    "the package uses the simulator's clock convention (time + pattern_start) and the demand multiplier; every arithmetic use of the percentage "
-    "option global_efficiency divides it by 100; the default lookup tables equal the RST tables of the same docstrings and the nearest entry is "
-    "selected by argmin |index - value|. Decides the scalar formulas and conventions, not the pandas plumbing.")
-RULE_TEXT = "one instance = one formula, one loop, one call site, one table"
-ASSUMPTIONS = ["pandas arithmetic is elementwise and aligns on labels; .sum(axis=1) sums over columns"]
+    "Formula extraction (AST -> sympy by path-enumerating symbolic execution; locals, hoisted temporaries and inlined helpers are resolved to the "
+    "canonical text of what they hold, comprehensions are entered like loops, pandas selections are kept as uninterpreted leaves, reference "
+    "formulas are written in the same syntax and passed through the same extractor) of expected_demand, average_expected_demand, _lcm, "
+    "water_service_availability, todini_index, modified_resilience_index, tank_capacity, population, pump_power/energy/cost and the "
+    "maximum-pump-power formula; _gcd is evaluated concretely on a grid of integer pairs against math.gcd; CFG rule 'a loop whose body always "
+    "leaves on the first iteration' over all of wntr/metrics; the demand_timeseries_list.at call of expected_demand is compared, per path, with "
+    "the simulator's clock convention (loop time + pattern_start), the demand multiplier, the category and the time grid it iterates; the "
+    "price chosen by pump_cost is decided as a truth table over the None-ness of (own price, own pattern, global pattern) from the path "
+    "conditions; every arithmetic use of the percentage option global_efficiency (also through a temporary) divides it by 100; the default "
+    "lookup tables are evaluated concretely and compared with the RST tables of the same docstrings; the totals of annual_network_cost / "
+    "annual_ghg_emissions are decomposed into table look-ups (table, looked-up value, multiplier, loop) each of which must select "
+    "table.iloc[argmin |table.index - value|]. Decides the scalar formulas and conventions, not the pandas plumbing.")
+RULE_TEXT = "one instance = one formula, one loop, one call site, one table, one look-up"
+ASSUMPTIONS = ["pandas arithmetic is elementwise and aligns on labels; .sum(axis=1) sums over columns",
+               "registry iterators: wn.tanks() yields the (name, wn.get_node(name)) pairs of wn.tank_name_list in the same order; wn.pipes()/wn.tanks()/wn.valves() "
+               "are wn.links(Pipe)/wn.nodes(Tank)/wn.links(Valve)"]
 
 
 def pandas_hook(name, node, args, kwargs, st, ex, recv):
@@ -54,10 +64,250 @@ def pandas_hook(name, node, args, kwargs, st, ex, recv):
     return NotImplemented
 
 
+# ------------------------------------------------------------------ the extractor used by this module
+class Comp(Opaque):
+    """value of a one-generator comprehension: `elt` for `target` in `iter` [if conds] (text = canonical form with locals resolved)."""
+
+    def __init__(self, text, elt, target, it, conds):
+        Opaque.__init__(self, text)
+        self.elt, self.target, self.iter, self.conds = elt, target, it, conds
+
+
+class Rel(Opaque):
+    """an undecided comparison, operands kept"""
+
+    def __init__(self, text, op, a, b):
+        Opaque.__init__(self, text)
+        self.op, self.a, self.b = op, a, b
+
+
+class MX(SymExec):
+    """SymExec that (a) enters one-generator comprehensions like a loop body (events of the element are recorded, the value is a Comp),
+    (b) annotates call/store events with the (target, iterable) pairs of the enclosing loops and stores with the base/key values,
+    (c) remembers the Opaque behind every symbol (so a symbol can be taken apart again)."""
+
+    def __init__(self, **kw):
+        SymExec.__init__(self, **kw)
+        self.objs = {}
+
+    def S(self, v, node=None):
+        if isinstance(v, Opaque) and (v.text not in self.objs or (self.objs[v.text].base is None and v.base is not None)):
+            self.objs[v.text] = v
+        return SymExec.S(self, v, node)
+
+    def compare(self, op, a, b):
+        r = SymExec.compare(self, op, a, b)
+        if isinstance(r, Opaque):
+            r = Rel(r.text, type(op).__name__, a, b)
+        return r
+
+    def e_Subscript(self, n, st):
+        r = SymExec.e_Subscript(self, n, st)
+        if isinstance(r, Opaque) and r.base is not None:
+            self.objs[r.text] = r
+        return r
+
+    def stmt(self, s, st):
+        # x += t in a loop body that is walked once is x = x + t (no SUM{..} summary: the totals are taken apart term by term)
+        if isinstance(s, ast.AugAssign) and isinstance(s.target, ast.Name):
+            self.assign(s.target, self.binop(s.op, self.ev(s.target, st), self.ev(s.value, st), s), st, s)
+            return [st]
+        return SymExec.stmt(self, s, st)
+
+    def e_ListComp(self, n, st):
+        if len(n.generators) != 1:
+            return Opaque(unparse(n))
+        g = n.generators[0]
+        it = self.ev(g.iter, st)
+        n0 = len(st.events)
+        sub = st.fork()
+        self.bind_loop_target(g.target, sub)
+        tgt = unparse(g.target)
+        sub.loops.append((tgt, self.text(it), set(st.env)))
+        sub.events.append(("loop", tgt, self.text(it), getattr(n, "lineno", 0)))
+        conds = [self.text(self.ev(c, sub)) for c in g.ifs]
+        elt = self.ev(n.elt, sub)
+        st.events.extend(sub.events[n0:])
+        txt = "[%s for %s in %s%s]" % (self.text(elt), tgt, self.text(it), "".join(" if " + c for c in conds))
+        return Comp(txt, elt, tgt, self.text(it), conds)
+
+    e_GeneratorExp = e_ListComp
+
+    def binop(self, op, a, b, n=None):
+        # [..] + [x for ..]: the comprehension stays one (splatted) member of the abstract list
+        if isinstance(op, ast.Add) and ((isinstance(a, list) and isinstance(b, Comp)) or (isinstance(a, Comp) and isinstance(b, list))):
+            return (list(a) if isinstance(a, list) else [a]) + (list(b) if isinstance(b, list) else [b])
+        return SymExec.binop(self, op, a, b, n)
+
+    def e_Call(self, n, st):
+        n0 = len(st.events)
+        r = SymExec.e_Call(self, n, st)
+        lp = tuple((l[0], l[1]) for l in st.loops)
+        for i in range(n0, len(st.events)):
+            e = st.events[i]
+            if e[0] == "call" and len(e) == 5:
+                st.events[i] = e + (lp,)
+        return r
+
+    def assign(self, t, v, st, stmt=None):
+        n0 = len(st.events)
+        SymExec.assign(self, t, v, st, stmt)
+        if len(st.events) == n0 + 1 and st.events[-1][0] == "store" and len(st.events[-1]) == 5 and isinstance(t, ast.Subscript):
+            st.events[-1] = st.events[-1] + (tuple((l[0], l[1]) for l in st.loops), self.ev(t.value, st), self.ev(t.slice, st))
+
+
 def ref(ex, code, env):
     """evaluate a reference expression written in Python syntax with the same extractor."""
     st = State(dict(env))
     return ex.S(ex.ev(ast.parse(code, mode="eval").body, st))
+
+
+def ev_calls(o, name):
+    return [e for e in o.events if e[0] == "call" and e[2][0] == name]
+
+
+def loop_vars(lp):
+    """names bound by the loops enclosing an event: [(name, position in its target, iterable text)]"""
+    out = []
+    for tgt, it in lp:
+        for i, nm in enumerate(x.strip(" ()") for x in tgt.split(",")):
+            out.append((nm, i, it))
+    return out
+
+
+def bind_args(params, args, kwargs):
+    d = dict(zip(params, args))
+    d.update(kwargs)
+    return d
+
+
+# ------------------------------------------------------------------ three-valued evaluation of path conditions under a None-ness assignment
+def _tv(node, none):
+    if isinstance(node, ast.BoolOp):
+        vals = [_tv(v, none) for v in node.values]
+        if isinstance(node.op, ast.And):
+            return False if any(v is False for v in vals) else True if all(v is True for v in vals) else None
+        return True if any(v is True for v in vals) else False if all(v is False for v in vals) else None
+    if isinstance(node, ast.UnaryOp) and isinstance(node.op, ast.Not):
+        v = _tv(node.operand, none)
+        return None if v is None else not v
+    if isinstance(node, ast.Compare) and len(node.ops) == 1 and isinstance(node.ops[0], (ast.Is, ast.IsNot, ast.Eq, ast.NotEq)):
+        l, r = node.left, node.comparators[0]
+        if isinstance(l, ast.Constant) and l.value is None:
+            l, r = r, l
+        if isinstance(r, ast.Constant) and r.value is None and unparse(l) in none:
+            v = none[unparse(l)]
+            return v if isinstance(node.ops[0], (ast.Is, ast.Eq)) else not v
+        if unparse(l) in none and none[unparse(l)] and isinstance(r, ast.Constant) and isinstance(node.ops[0], (ast.Eq, ast.NotEq)):
+            return isinstance(node.ops[0], ast.NotEq)      # None == <non-None constant> is False
+        return None
+    if isinstance(node, (ast.Name, ast.Attribute)) and unparse(node) in none and none[unparse(node)]:
+        return False                                       # truth value of None
+    if isinstance(node, ast.Constant):
+        return bool(node.value)
+    return None
+
+
+def tv_text(text, none):
+    try:
+        return _tv(ast.parse(text, mode="eval").body, none)
+    except SyntaxError:
+        return None
+
+
+def consistent(conds, none):
+    """can the path with these recorded conditions be taken when the atoms are None / not None as given?"""
+    for t, v in conds:
+        r = tv_text(t, none)
+        if r is not None and r != bool(v):
+            return False
+    return True
+
+
+def none_state(conds, atom):
+    """True: the path is only taken when atom is None; False: only when it is not None; None: the path does not depend on it"""
+    cT, cF = consistent(conds, {atom: True}), consistent(conds, {atom: False})
+    return True if cT and not cF else False if cF and not cT else None
+
+
+def resolve_pieces(ex, v, none):
+    if isinstance(v, sp.Basic) and v.has(sp.Piecewise):
+        return v.replace(lambda e: isinstance(e, sp.Piecewise), lambda e: pick_piece(ex, e, none))
+    return v
+
+
+def pick_piece(ex, v, none):
+    """a conditional expression became a Piecewise on the atom '[test text]': select the branch the assignment takes."""
+    if isinstance(v, sp.Piecewise):
+        for val, cond in v.args:
+            if cond is sp.true or cond == True:  # noqa: E712
+                return val
+            syms = [s for s in cond.free_symbols if s.name.startswith("[") and s.name.endswith("]")]
+            if isinstance(cond, sp.Eq) and len(syms) == 1:
+                r = tv_text(syms[0].name[1:-1], none)
+                if r is True:
+                    return val
+                if r is False:
+                    continue
+            return v
+    return v
+
+
+# ------------------------------------------------------------------ small concrete evaluations
+class LoopEv(Evaluator):
+    """peval with bounded while loops, element-wise list scaling (numpy arrays) and subscripts (pure integer / table helpers)."""
+    FUEL = 100000
+
+    def stmt(self, s):
+        if isinstance(s, ast.While):
+            fuel = 0
+            while self.truth(self.ev(s.test)):
+                fuel += 1
+                if fuel > self.FUEL:
+                    raise Unknown("while loop does not terminate within %d iterations" % self.FUEL)
+                self.block(s.body)
+            return
+        if isinstance(s, (ast.Import, ast.ImportFrom)):
+            return
+        return Evaluator.stmt(self, s)
+
+    def binop(self, op, a, b, n):
+        if isinstance(a, Arr) and isinstance(b, (int, float)) and isinstance(op, (ast.Mult, ast.Div)):
+            return Arr(x * b if isinstance(op, ast.Mult) else x / b for x in a)
+        if isinstance(b, Arr) and isinstance(a, (int, float)) and isinstance(op, ast.Mult):
+            return Arr(a * x for x in b)
+        return Evaluator.binop(self, op, a, b, n)
+
+    def e_Subscript(self, n):
+        return self.ev(n.value)[self.ev(n.slice)]
+
+
+class Arr(list):
+    pass
+
+
+def gcd_table(fn):
+    """fn (a two-parameter integer helper) evaluated on a grid -> [(x, y, value)]"""
+    ps = [a.arg for a in fn.args.args]
+    if len(ps) != 2:
+        raise ExtractError("%s: two parameters expected" % fn.name)
+
+    def hook(name, n, ev):
+        if name in ("math.gcd", "gcd", "np.gcd", "numpy.gcd"):
+            return math.gcd(*[ev.ev(a) for a in n.args])
+        if name == "abs":
+            return abs(ev.ev(n.args[0]))
+        if name == fn.name:
+            return LoopEv(dict(zip(ps, [ev.ev(a) for a in n.args])), None, hook).run(fn.body)
+        return NotImplemented
+    rows = []
+    pairs = [(x, y) for x in range(1, 31) for y in range(1, 31)] + [(86400, 18000), (18000, 86400), (86400, 25200), (7, 0), (86400, 86400), (3600, 86400)]
+    for x, y in pairs:
+        try:
+            rows.append((x, y, LoopEv({ps[0]: x, ps[1]: y}, None, hook).run(fn.body)))
+        except (Unknown, Raised, RecursionError) as e:
+            raise ExtractError("%s(%d, %d) not evaluable: %s" % (fn.name, x, y, e))
+    return rows
 
 
 def rst_table(doc, header_word):
@@ -76,16 +326,89 @@ def rst_table(doc, header_word):
     return None
 
 
-def list_assign(fn, name, after_test):
-    """value of `name = [..]` inside `if <after_test> is None:`."""
+def default_table(repo, rel, fn, param):
+    """the default lookup table of `param` (a pandas Series built where the parameter is None), evaluated concretely:
+    -> (index values, data values) or None when it cannot be located."""
+    def class_attr(d):
+        try:
+            return mk().ev(repo.module_assign(rel, d))
+        except AnchorError:
+            raise Unknown("unbound name %s" % d)
+
+    def hook(name, n, ev):
+        if name in ("np.array", "numpy.array", "np.asarray") and n.args:
+            v = ev.ev(n.args[0])
+            if isinstance(v, list):
+                return Arr(v)
+        if name in ("list", "tuple") and n.args:
+            return list(ev.ev(n.args[0]))
+        if name in ("pd.Series", "pandas.Series"):
+            kw = bind_args(["data", "index"], [ev.ev(a) for a in n.args], {k.arg: ev.ev(k.value) for k in n.keywords if k.arg in ("data", "index")})
+            return Obj("series", kw)
+        return NotImplemented
+
+    def mk():
+        return LoopEv({"np": Obj("np"), "pd": Obj("pd"), "numpy": Obj("numpy")}, class_attr, hook)
     for n in walk(fn):
-        if isinstance(n, ast.If) and unparse(n.test) == "%s is None" % after_test:
-            out = {}
-            for s in n.body:
-                if isinstance(s, ast.Assign) and isinstance(s.targets[0], ast.Name):
-                    out.setdefault(s.targets[0].id, []).append(s.value)
-            return out
+        blocks = []
+        if isinstance(n, ast.If) and tv_text(unparse(n.test), {param: True}) is True:
+            blocks.append(n.body)
+        elif isinstance(n, ast.If) and tv_text(unparse(n.test), {param: True}) is False and n.orelse:
+            blocks.append(n.orelse)
+        for blk in blocks:
+            e = mk()
+            try:
+                e.block(blk)
+            except (Unknown, Raised, Returned, TypeError, KeyError, IndexError):
+                continue
+            v = e.env.get(param)
+            if isinstance(v, Obj) and v.name == "series" and isinstance(v.attrs.get("data"), list) and isinstance(v.attrs.get("index"), list):
+                return [float(x) for x in v.attrs["index"]], [float(x) for x in v.attrs["data"]]
     return None
+
+
+# ------------------------------------------------------------------ decomposition of a total into table look-ups
+def lookups(ex, o, total):
+    """total (sympy) as a sum of look-ups: -> [dict(table, value, mult, loop, vars, sel_ok, text)] or raises ExtractError"""
+    out = []
+    for term in sp.Add.make_args(sp.expand(total)):
+        if term == 0:
+            continue
+        ils = [s for s in term.free_symbols if ".iloc[" in s.name or ".loc[" in s.name or ".iat[" in s.name]
+        if len(ils) != 1:
+            raise ExtractError("term %s of the total is not one table look-up" % str(term)[:80])
+        s = ils[0]
+        ob = ex.objs.get(s.name)
+        d = dict(text=s.name, mult=sp.simplify(term / s), table=None, value=None, loop=None, vars=[], sel_ok=False, how="")
+        out.append(d)
+        if ob is None or ob.base is None or not isinstance(ob.base, Opaque) or not ob.base.text.endswith(".iloc"):
+            d["how"] = "not positional (.iloc) selection"
+            continue
+        d["table"] = ob.base.text[:-len(".iloc")]
+        key = ob.key
+        ce = [e for e in o.events if e[0] == "call" and isinstance(key, Opaque) and e[1] == key.text]
+        if not ce or ce[0][2][0] not in ("np.argmin", "numpy.argmin"):
+            d["how"] = "position is not np.argmin(...): %s" % (ex.text(key)[:60],)
+            continue
+        d["loop"] = ce[0][5][-1][1] if len(ce[0]) > 5 and ce[0][5] else ""
+        d["vars"] = loop_vars(ce[0][5][-1:]) if len(ce[0]) > 5 else []
+        a = ce[0][2][1][0] if ce[0][2][1] else None
+        while isinstance(a, (list, tuple)) and len(a) == 1:
+            a = a[0]
+        if not isinstance(a, sp.Basic) or not isinstance(a, sp.Abs):
+            d["how"] = "argument of argmin is not |...|: %s" % (ex.text(a)[:60],)
+            continue
+        idx = ex.sym(d["table"] + ".index")
+        inner = sp.expand(a.args[0])
+        if inner.coeff(idx) == 1:
+            d["value"] = sp.simplify(idx - inner)
+        elif inner.coeff(idx) == -1:
+            d["value"] = sp.simplify(inner + idx)
+        else:
+            d["how"] = "distance is not taken to the index of the table selected from: %s" % (str(inner)[:80],)
+            continue
+        d["sel_ok"] = not d["value"].has(idx)
+    return out
 
 
 def run(repo, chk):
@@ -109,48 +432,112 @@ def run(repo, chk):
                            "a loop whose body always returns/breaks on the first iteration computes only the first step (Euclid's algorithm must iterate until the remainder is 0)",
                            expected="at least one path from the loop body back to the loop head", found="every path through the body leaves the loop")
     chk.floor("R-C20-1", 10, count=nloops)
-    ex = SymExec()
+    ex = MX()
     lcm = repo.func(HYDM, "_lcm")
-    o = ex.run(lcm)
-    chk.expect(len(o) == 1 and is_zero(ex.S(o[0].ret) - ex.sym("x") * ex.sym("y") / ex.sym("_gcd(x, y)")), "R-C20-1", "_lcm(x, y) = x*y / gcd(x, y)", loc(lcm), found=str(o[0].ret) if o else None)
     gcd = repo.func(HYDM, "_gcd")
     chk.fn(gcd, lcm)
-    upd = [s for s in walk(gcd) if isinstance(s, ast.Assign) and isinstance(s.targets[0], ast.Tuple) and unparse(s.value).replace(" ", "") in ("y,x%y", "(y,x%y)")]
-    chk.expect(bool(upd), "R-C20-1", "_gcd performs the Euclidean step x, y = y, x mod y", loc(gcd))
-    rets = [s for s in gcd.body if isinstance(s, ast.Return)]
-    chk.expect(len(rets) == 1 and unparse(rets[0].value) == "x", "R-C20-1", "_gcd returns x after the loop has finished", loc(gcd), "the return statement must follow the loop, not sit inside it",
-               found=[unparse(s) for s in walk(gcd) if isinstance(s, ast.Return)])
+    o = ex.run(lcm)
+    lps = [a.arg for a in lcm.args.args]
+    oklcm = False
+    if len(o) == 1 and len(lps) == 2 and o[0].ret is not None:
+        gc = ev_calls(o[0], "_gcd")
+        r = ex.S(o[0].ret)
+        if isinstance(r, sp.floor):          # x*y // gcd is the same integer
+            r = r.args[0]
+        oklcm = len(gc) >= 1 and sorted(ex.text(a) for a in gc[0][2][1]) == sorted(lps) and is_zero(r - ex.sym(lps[0]) * ex.sym(lps[1]) / ex.sym(gc[0][1]))
+    chk.expect(oklcm, "R-C20-1", "_lcm(x, y) = x*y / gcd(x, y)", loc(lcm), found=str(o[0].ret) if o else None)
+    rows = gcd_table(gcd)
+    wrong = [(x, y, v) for x, y, v in rows if v != math.gcd(x, y)]
+    chk.expect(not wrong, "R-C20-1", "_gcd(x, y) is the greatest common divisor (Euclid's algorithm run to the end)", loc(gcd),
+               "evaluated on %d integer pairs; the common period of the patterns is lcm = x*y/gcd" % len(rows), expected="math.gcd", found=wrong[:4])
 
-    # ---------------------------------------------------------------- R-C20-2 one clock for demands
+    # ---------------------------------------------------------------- R-C20-2 one clock for demands, R-C20-6 its time grid
     ed = repo.func(HYDM, "expected_demand")
     chk.fn(ed)
-    ex = SymExec()
+    at_params = ["time", "category", "multiplier"]
+    if repo.has_func(ELEM, "Demands.at"):
+        at_params = [a.arg for a in repo.func(ELEM, "Demands.at").args.args if a.arg != "self"]
+    ex = MX()
+    outs = [o for o in ex.run(ed) if not o.raised]
+    ps = ex.sym("wn.options.time.pattern_start")
+    fact = {"clock": [], "mult": [], "cat": [], "grid": [], "defaults": [], "cut": [], "index": []}
     seen = 0
-    for o in ex.run(ed):
-        for e in o.events:
-            if e[0] == "call" and ".demand_timeseries_list.at(" in e[1]:
-                seen += 1
-                nm, args, kwargs = e[2]
-                t = args[0] if args else kwargs.get("time")
-                tv = sp.expand(ex.S(t))
-                ps = ex.sym("wn.options.time.pattern_start")
-                chk.expect(tv.coeff(ps) == 1 and tv.coeff(ex.sym("ts")) == 1 and is_zero(tv - ps - ex.sym("ts")), "R-C20-2", "expected_demand evaluates demands at time + pattern_start (the simulator's clock)", loc(ed),
-                           "WNTRSimulator requests demand_timeseries_list.at(sim_time + pattern_start); the metric must use the same clock to match the delivered demand",
-                           expected="ts + wn.options.time.pattern_start", found=str(tv))
-                mult = kwargs.get("multiplier")
-                chk.expect(isinstance(mult, Opaque) and mult.text == "wn.options.hydraulic.demand_multiplier", "R-C20-2", "expected_demand applies the global demand multiplier", loc(ed), found=mult)
-                chk.expect(kwargs.get("category") == Opaque("category"), "R-C20-2", "expected_demand forwards the category filter", loc(ed), found=kwargs.get("category"))
-                break
-        if seen:
-            break
-    chk.expect(seen == 1, "R-C20-2", "expected_demand calls demand_timeseries_list.at", loc(ed))
-    src = unparse(ed)
-    chk.expect("np.arange(start_time, end_time + timestep, timestep)" in src, "R-C20-2", "expected_demand covers start_time..end_time inclusive in steps of timestep", loc(ed))
-    defaults = {}
-    for n in walk(ed):
-        if isinstance(n, ast.If) and re.fullmatch(r"(\w+) is None", unparse(n.test)):
-            defaults[unparse(n.test).split()[0]] = unparse(n.body[0].value) if isinstance(n.body[0], ast.Assign) else None
-    chk.expect(defaults == {"start_time": "0", "end_time": "wn.options.time.duration", "timestep": "wn.options.time.report_timestep"}, "R-C20-2", "expected_demand defaults: 0 .. duration every report_timestep", loc(ed), found=defaults)
+    dflt = {"start_time": sp.Integer(0), "end_time": ex.sym("wn.options.time.duration"), "timestep": ex.sym("wn.options.time.report_timestep")}
+    for o in outs:
+        ats = [e for e in o.events if e[0] == "call" and e[1].split("(")[0].endswith(".demand_timeseries_list.at")]
+        if len(ats) != 1:
+            continue
+        seen += 1
+        e = ats[0]
+        b = bind_args(at_params, e[2][1], e[2][2])
+        try:
+            tv = sp.expand(ex.S(b.get("time")))
+        except ExtractError:
+            tv = sp.Symbol("?")
+        rest = tv - ps
+        lv = [(nm, it) for nm, i, it in loop_vars(e[5])]
+        tl = [it for nm, it in lv if rest.is_Symbol and nm == rest.name]
+        fact["clock"].append((bool(tl), str(tv)))
+        mult = b.get("multiplier")
+        fact["mult"].append((isinstance(mult, Opaque) and mult.text == "wn.options.hydraulic.demand_multiplier", mult))
+        fact["cat"].append((b.get("category") == Opaque("category"), b.get("category")))
+        # the grid the time variable runs over
+        ar = ev_calls(o, "np.arange")
+        if not ar:
+            raise ExtractError("expected_demand: time grid (np.arange) not found")
+        a = bind_args(["start", "stop", "step"], ar[0][2][1], ar[0][2][2])
+        if not all(k in a for k in ("start", "stop", "step")):
+            raise ExtractError("expected_demand: np.arange(start, stop, step) expected, found %s" % ar[0][1])
+        try:
+            s0, u0, p0 = ex.S(a["start"]), ex.S(a["stop"]), ex.S(a["step"])
+        except ExtractError:
+            raise ExtractError("expected_demand: arguments of np.arange not arithmetic: %s" % ar[0][1])
+        it_text = tl[0] if tl else None
+        itv = ex.objs.get(it_text)
+        if isinstance(o.ret, Opaque):
+            df = [c for c in ev_calls(o, "pd.DataFrame") if c[1] == o.ret.text]
+            if df:
+                ix = bind_args(["data", "index"], df[0][2][1], df[0][2][2]).get("index")
+                fact["index"].append((it_text is not None and ix is not None and ex.text(ix) == it_text, ex.text(ix)))
+        # decided for every combination of the three optional arguments being None / given that can take this path
+        # (a default may be applied by an if statement -- a path condition -- or by a conditional expression -- a Piecewise)
+        for sn in (True, False):
+            for en in (True, False):
+                for tn in (True, False):
+                    none = {"start_time": sn, "end_time": en, "timestep": tn}
+                    if not consistent(o.conds, none):
+                        continue
+                    want = {p: (dflt[p] if none[p] else ex.sym(p)) for p in none}
+                    s_, u_, p_ = [resolve_pieces(ex, x, none) for x in (s0, u0, p0)]
+                    okg = is_zero(s_ - want["start_time"]) and is_zero(p_ - want["timestep"]) and (is_zero(u_ - want["end_time"] - want["timestep"]) or is_zero(u_ - want["end_time"] - 1))
+                    fact["defaults" if (sn or en or tn) else "grid"].append((okg, ar[0][1]))
+                    # cut: the iterated grid is <arange>[<arange> <= end]
+                    cut = False
+                    if itv is not None and isinstance(itv.base, Opaque) and itv.base.text == ar[0][1] and isinstance(itv.key, Rel):
+                        k = itv.key
+                        lo, hi = (k.a, k.b) if k.op == "LtE" else (k.b, k.a) if k.op == "GtE" else (None, None)
+                        try:
+                            cut = isinstance(lo, Opaque) and lo.text == ar[0][1] and is_zero(resolve_pieces(ex, ex.S(hi), none) - want["end_time"])
+                        except ExtractError:
+                            cut = False
+                    overshoots = is_zero(u_ - want["end_time"] - want["timestep"]) and not cut
+                    if it_text is not None:          # (an unidentified time loop is already reported by the clock rule)
+                        fact["cut"].append((not overshoots, it_text))
+
+    def all_ok(k):
+        return bool(fact[k]) and all(x[0] for x in fact[k])
+
+    def first_bad(k):
+        return next((str(x[1]) for x in fact[k] if not x[0]), None)
+    chk.expect(seen == len(outs) and seen > 0, "R-C20-2", "expected_demand calls demand_timeseries_list.at", loc(ed), found="%d of %d paths" % (seen, len(outs)))
+    chk.expect(all_ok("clock"), "R-C20-2", "expected_demand evaluates demands at time + pattern_start (the simulator's clock)", loc(ed),
+               "WNTRSimulator requests demand_timeseries_list.at(sim_time + pattern_start); the metric must use the same clock to match the delivered demand",
+               expected="<time of the grid> + wn.options.time.pattern_start", found=first_bad("clock"))
+    chk.expect(all_ok("mult"), "R-C20-2", "expected_demand applies the global demand multiplier", loc(ed), found=first_bad("mult"))
+    chk.expect(all_ok("cat"), "R-C20-2", "expected_demand forwards the category filter", loc(ed), found=first_bad("cat"))
+    chk.expect(all_ok("grid") and (not fact["index"] or all_ok("index")), "R-C20-2", "expected_demand covers start_time..end_time inclusive in steps of timestep", loc(ed),
+               "the demands are evaluated on np.arange(start, end + step, step) and the table is indexed by the same times", found=first_bad("grid") or first_bad("index"))
+    chk.expect(all_ok("defaults"), "R-C20-2", "expected_demand defaults: 0 .. duration every report_timestep", loc(ed), found=first_bad("defaults"))
     # other call sites in the package outside wntr/sim (wntr/sim is C01's rule)
     extra = 0
     for rel in repo.modules("wntr"):
@@ -162,26 +549,74 @@ def run(repo, chk):
                 chk.expect("pattern_start" in unparse(c.args[0]) if c.args else False, "R-C20-2", "%s evaluates demands at time + pattern_start" % rel, loc(rel, c), found=unparse(c)[:100])
     aed = repo.func(HYDM, "average_expected_demand")
     chk.fn(aed)
-    ex = SymExec()
-    o = [x for x in ex.run(aed) if not x.raised]
-    okavg = False
-    if o:
-        cs_ = [e for e in o[0].events if e[0] == "call" and e[1].startswith("expected_demand(")]
-        if cs_:
-            a = cs_[0][2][1]
+    ed_params = [a.arg for a in ed.args.args]
+    ex = MX(call_hook=pandas_hook)
+    outs = [x for x in ex.run(aed) if not x.raised]
+    okavg, okcat, okmean, found_avg = bool(outs), bool(outs), bool(outs), None
+    terms = []          # (value, guarded, pattern variable bound by iterating wn.patterns())
+    consts_ok = bool(outs)
+    for o in outs:
+        cs_ = ev_calls(o, "expected_demand")
+        lc = ev_calls(o, "_lcml") or [c for c in ev_calls(o, "reduce") if c[2][1] and ex.text(c[2][1][0]) == "_lcm"]
+        if not cs_ or not lc:
+            okavg = okcat = okmean = consts_ok = False
+            continue
+        b = bind_args(ed_params, cs_[0][2][1], cs_[0][2][2])
+        found_avg = [str(b.get(k)) for k in ("start_time", "end_time", "timestep")]
+        try:
+            start, end, step = ex.S(b.get("start_time")), ex.S(b.get("end_time")), ex.S(b.get("timestep"))
+            span = sp.simplify(end - start + step)
+            lcmv = [s for s in span.free_symbols]
+            span = span.replace(sp.Function("int"), lambda x: x)
+            okavg = okavg and is_zero(step - ex.sym("wn.options.time.pattern_timestep")) and len(lcmv) == 1 and lcmv[0].name == lc[0][1] and span == lcmv[0]
+        except ExtractError:
+            okavg = False
+        okcat = okcat and b.get("category") == Opaque("category")
+        try:
+            okmean = okmean and o.ret is not None and is_zero(ex.S(o.ret) - sp.Function("MEAN_axis0")(ex.sym(cs_[0][1])))
+        except ExtractError:
+            okmean = False
+        lst = lc[0][2][1][-1]
+        if not isinstance(lst, list):
+            raise ExtractError("average_expected_demand: list of pattern periods not found (argument of %s)" % lc[0][1][:40])
+        pvars = {nm: it for ev_ in o.events if ev_[0] == "loop" for nm, i, it in loop_vars([(ev_[1], ev_[2])]) if it == "wn.patterns()" and i == 1}
+        cons = []
+        for item in lst:
+            if isinstance(item, (int, float, sp.Number)):
+                cons.append(int(item) if item == int(item) else float(item))
+                continue
+            if isinstance(item, Comp):
+                val, cnds = item.elt, [(c, True) for c in item.conds]
+                pv = {nm: it for nm, i, it in loop_vars([(item.target, item.iter)]) if it == "wn.patterns()" and i == 1}
+            else:
+                val, cnds, pv = item, o.conds, pvars
             try:
-                start, end, step = ex.S(a[1]), ex.S(a[2]), ex.S(a[3])
-                span = sp.simplify(end - start + step)
-                lcmv = [s for s in span.free_symbols]
-                span = span.replace(sp.Function("int"), lambda x: x)
-                okavg = is_zero(step - ex.sym("wn.options.time.pattern_timestep")) and len(lcmv) == 1 and "_lcml" in lcmv[0].name and span == lcmv[0]
+                val = ex.S(val)
             except ExtractError:
-                okavg = False
-            chk.expect(okavg, "R-C20-2", "average_expected_demand averages over exactly one common period (lcm of all pattern lengths and 24 h) in steps of pattern_timestep", loc(aed), found=[str(x) for x in a[1:4]])
-            chk.expect(cs_[0][2][2].get("category") == Opaque("category"), "R-C20-2", "average_expected_demand forwards the category", loc(aed))
-    Ls = [s for s in walk(aed) if isinstance(s, ast.Call) and last_attr(s) == "append" and "len(pattern.multipliers) * wn.options.time.pattern_timestep" in unparse(s)]
-    chk.expect(bool(Ls) and "wn.patterns()" in unparse(aed) and "[24 * 3600]" in unparse(aed), "R-C20-2", "the common period is built from every pattern's length (n * pattern_timestep) and 24 h", loc(aed))
-    chk.expect(".mean(axis=0)" in unparse(aed), "R-C20-2", "average_expected_demand is the mean over time", loc(aed))
+                val = sp.Symbol("?" + ex.text(val))
+            var = [nm for nm in pv if val.has(ex.sym("len(%s.multipliers)" % nm))]
+            guarded = False
+            if var:
+                for t, v in cnds:
+                    ln = "len(%s.multipliers)" % var[0]
+                    if ln in t:
+                        r = tv_text(t.replace(ln, "0"), {})
+                        if r is None:
+                            try:
+                                r = bool(LoopEv({}).ev(ast.parse(t.replace(ln, "0"), mode="eval").body))
+                            except (Unknown, SyntaxError, TypeError):
+                                r = None
+                        if r is not None and r != bool(v):
+                            guarded = True          # the path cannot be taken by a pattern of length 0
+            terms.append((val, guarded, var[0] if var else None))
+        consts_ok = consts_ok and cons == [24 * 3600]
+    chk.expect(okavg, "R-C20-2", "average_expected_demand averages over exactly one common period (lcm of all pattern lengths and 24 h) in steps of pattern_timestep", loc(aed), found=found_avg)
+    chk.expect(okcat, "R-C20-2", "average_expected_demand forwards the category", loc(aed))
+    pt = ex.sym("wn.options.time.pattern_timestep")
+    okterms = bool(terms) and all(var is not None and is_zero(val - ex.sym("len(%s.multipliers)" % var) * pt) for val, g_, var in terms)
+    chk.expect(okterms and consts_ok, "R-C20-2", "the common period is built from every pattern's length (n * pattern_timestep) and 24 h", loc(aed),
+               found=[str(t[0]) for t in terms][:3])
+    chk.expect(okmean, "R-C20-2", "average_expected_demand is the mean over time", loc(aed))
 
     # ---------------------------------------------------------------- R-C20-3 efficiency convention
     nuse = 0
@@ -189,61 +624,122 @@ def run(repo, chk):
         t = repo.tree(rel)
         for n in ast.walk(t):
             if isinstance(n, ast.Attribute) and n.attr == "global_efficiency" and isinstance(n.ctx, ast.Load):
-                p = getattr(n, "_parent", None)
-                if not isinstance(p, ast.BinOp):
-                    continue
-                nuse += 1
-                okp = (isinstance(p.op, ast.Div) and p.left is n and const(p.right) in (100, 100.0)) or (isinstance(p.op, ast.Mult) and const(p.right if p.left is n else p.left) == 0.01)
-                fn = p
+                fn = n
                 while fn is not None and not isinstance(fn, ast.FunctionDef):
                     fn = getattr(fn, "_parent", None)
-                chk.expect(okp, "R-C20-3", "%s: global_efficiency (a percentage) is divided by 100 before use [%s]" % (fn.name if fn else rel, norm(p)[:70]), loc(rel, n),
-                           "options.energy.global_efficiency = 75 means 75 %; using the raw value makes the power 100 times too small", expected="global_efficiency / 100", found=norm(p))
+                uses = [n]
+                p = getattr(n, "_parent", None)
+                if isinstance(p, ast.Assign) and p.value is n and len(p.targets) == 1 and isinstance(p.targets[0], ast.Name) and fn is not None:
+                    # read once into a temporary: the arithmetic uses of the temporary are the uses of the option
+                    tmp = p.targets[0].id
+                    if sum(1 for m in ast.walk(fn) if isinstance(m, ast.Name) and m.id == tmp and isinstance(m.ctx, ast.Store)) == 1:
+                        uses = [m for m in ast.walk(fn) if isinstance(m, ast.Name) and m.id == tmp and isinstance(m.ctx, ast.Load)]
+                for u in uses:
+                    p = getattr(u, "_parent", None)
+                    if not isinstance(p, ast.BinOp):
+                        continue
+                    nuse += 1
+                    okp = (isinstance(p.op, ast.Div) and p.left is u and const(p.right) in (100, 100.0)) or (isinstance(p.op, ast.Mult) and const(p.right if p.left is u else p.left) == 0.01)
+                    shown = norm(p) if u is n else norm(p).replace(unparse(u), unparse(n))
+                    chk.expect(okp, "R-C20-3", "%s: global_efficiency (a percentage) is divided by 100 before use [%s]" % (fn.name if fn else rel, shown[:70]), loc(rel, u),
+                               "options.energy.global_efficiency = 75 means 75 %; using the raw value makes the power 100 times too small", expected="global_efficiency / 100", found=shown)
     chk.floor("R-C20-3", 3, count=nuse)
 
     # ---------------------------------------------------------------- R-C20-4 formulas
+    def head_gain_ok(ex, v, lvars):
+        """v == head at <pump>.end_node_name - head at <pump>.start_node_name for a pump variable bound by the enclosing loop"""
+        for nm in lvars:
+            if is_zero(v - (ex.sym("head.loc[(:, %s.end_node_name)]" % nm) - ex.sym("head.loc[(:, %s.start_node_name)]" % nm))):
+                return True
+        return False
+
     pp = repo.func(ECON, "pump_power")
     chk.fn(pp)
-    ex = SymExec(call_hook=pandas_hook)
+    ex = MX(call_hook=pandas_hook)
     outs = [o for o in ex.run(pp) if not o.raised]
     okp = False
+    okh = None
     for o in outs:
         if o.ret is None:
             continue
         r = ex.S(o.ret)
-        want = 9810 * ex.sym("pd.DataFrame(data=None, index=flowrate.index, columns=wn.pump_name_list)") * ex.sym("flowrate")
-        effs = [s for s in r.free_symbols if s.name.startswith("pd.DataFrame(data=") and "efficiency" in s.name or s.name.startswith("pd.DataFrame(data={")]
-        hl = [s for s in r.free_symbols if s.name.startswith("pd.DataFrame(data=None")]
-        if len(hl) == 1 and len(r.free_symbols) == 3:
-            eff = [s for s in r.free_symbols if s is not hl[0] and s.name != "flowrate"]
-            okp = len(eff) == 1 and is_zero(r - 9810 * hl[0] * ex.sym("flowrate") / eff[0])
-        st = [e for e in o.events if e[0] == "store" and e[1].startswith("pd.DataFrame(data=None") and "pump_name" in e[1]]
+        st = [e for e in o.events if e[0] == "store" and len(e) > 5 and e[5] and e[5][-1][1] == "wn.pumps()" and isinstance(e[2], sp.Basic)]
+        hsyms = set()
+        for e in st:
+            base = e[6]
+            if isinstance(base, Opaque) and base.text.endswith(".loc"):
+                hsyms.add(ex.sym(base.text[:-4]))
+            elif isinstance(base, Opaque):
+                hsyms.add(ex.sym(base.text))
+        esyms = set()
+        for c in ev_calls(o, "pd.DataFrame"):
+            data = bind_args(["data", "index", "columns"], c[2][1], c[2][2]).get("data")
+            if isinstance(data, dict) and data:
+                esyms.add(ex.sym(c[1]))
+        okp = okp or any(is_zero(r - 9810 * h * ex.sym("flowrate") / e_) for h in hsyms for e_ in esyms if h in r.free_symbols and e_ in r.free_symbols)
         if st:
             v = ex.S(st[0][2])
-            okh = is_zero(v - (ex.sym("head.loc[(:, pump.end_node_name)]") - ex.sym("head.loc[(:, pump.start_node_name)]")))
+            okh = head_gain_ok(ex, v, [nm for nm, i, it in loop_vars(st[0][5][-1:])])
             chk.expect(okh, "R-C20-4", "pump_power: head gain = head at the pump's end node - head at its start node", loc(pp), found=str(v))
+    if okh is None:
+        chk.bad("R-C20-4", "pump_power: head gain = head at the pump's end node - head at its start node", loc(pp), found="no per-pump store located")
     chk.expect(okp, "R-C20-4", "pump_power = 1000 * 9.81 * head gain * flow / efficiency", loc(pp), found=str(outs[0].ret)[:200] if outs else None)
     pe = repo.func(ECON, "pump_energy")
-    ex = SymExec()
+    ex = MX()
     o = ex.run(pe)[0]
-    chk.expect(is_zero(ex.S(o.ret) - ex.sym("pump_power(flowrate, head, wn)") * ex.sym("wn.options.time.report_timestep")), "R-C20-4", "pump_energy = pump_power * report_timestep (the spacing of the result rows)", loc(pe), found=str(o.ret))
+    pc_ = [c for c in ev_calls(o, "pump_power") if [ex.text(x) for x in c[2][1]] + ["%s=%s" % (k, ex.text(v)) for k, v in c[2][2].items() if ex.text(v) != k] == [a.arg for a in pp.args.args][:len(c[2][1])]
+           and len(c[2][1]) + len(c[2][2]) == len(pp.args.args)]
+    chk.expect(bool(pc_) and o.ret is not None and is_zero(ex.S(o.ret) - ex.sym(pc_[0][1]) * ex.sym("wn.options.time.report_timestep")), "R-C20-4",
+               "pump_energy = pump_power * report_timestep (the spacing of the result rows)", loc(pe), found=str(o.ret))
     pc = repo.func(ECON, "pump_cost")
-    ex = SymExec()
-    oks = [o for o in ex.run(pc) if not o.raised and o.ret is not None]
+    chk.fn(pc)
+    ex = MX()
+    allp = ex.run(pc)
+    oks = [o for o in allp if not o.raised and o.ret is not None]
     chk.expect(bool(oks) and all(len(ex.S(o.ret).free_symbols) == 2 and ex.sym("energy") in ex.S(o.ret).free_symbols and is_zero(sp.diff(ex.S(o.ret), ex.sym("energy"), 2)) and ex.S(o.ret).subs(ex.sym("energy"), 0) == 0 for o in oks), "R-C20-4",
                "pump_cost = energy * price", loc(pc), found=str(oks[0].ret) if oks else None)
-    prices = set()
-    for n in walk(pc):
-        if isinstance(n, ast.Assign) and "price_dict[pump_name]" in unparse(n.targets[0]) and isinstance(n.value, ast.ListComp):
-            prices.add(unparse(n.value.elt))
-    chk.expect(prices == {"wn.options.energy.global_price", "pump.energy_price"}, "R-C20-4", "pump_cost uses the pump's own price if set, else the global price", loc(pc), found=sorted(prices))
+    # which price: truth table over the None-ness of (own price, own pattern, global pattern), no demand charge
+    pv = sorted({nm for o in allp for ev_ in o.events if ev_[0] == "loop" for nm, i, it in loop_vars([(ev_[1], ev_[2])]) if it == "wn.pumps()" and i == 1})
+    if len(pv) != 1:
+        raise ExtractError("pump_cost: loop over wn.pumps() not found")
+    P, Q, G, D = pv[0] + ".energy_price", pv[0] + ".energy_pattern", "wn.options.energy.global_pattern", "wn.options.energy.demand_charge"
+    badrows = []
+    for pn in (True, False):
+        for qn in (True, False):
+            for gn in (True, False):
+                none = {P: pn, Q: qn, G: gn, D: True}
+                paths = [o for o in allp if consistent(o.conds, none)]
+                want = "raise" if not (qn and gn) else "wn.options.energy.global_price" if pn else P
+                got = set()
+                for o in paths:
+                    if o.raised:
+                        got.add("raise" if "NotImplementedError" in o.raised else o.raised[:40])
+                        continue
+                    elts = set()
+                    if o.ret is not None:
+                        for s in ex.S(o.ret).free_symbols:
+                            for c in ev_calls(o, "pd.DataFrame"):
+                                data = bind_args(["data", "index", "columns"], c[2][1], c[2][2]).get("data")
+                                if c[1] == s.name and isinstance(data, dict):
+                                    for k, v in data.items():
+                                        e_ = v.elt if isinstance(v, Comp) else v
+                                        if isinstance(e_, sp.Basic):
+                                            e_ = pick_piece(ex, e_, none)
+                                        elts.add(ex.text(e_) if not isinstance(e_, sp.Basic) else str(e_))
+                    got.add(" / ".join(sorted(elts)) or "<no price>")
+                if got != {want}:
+                    badrows.append(("price %s, pattern %s, global pattern %s" % tuple("None" if x else "set" for x in (pn, qn, gn)), sorted(got), want))
+    chk.expect(not badrows, "R-C20-4", "pump_cost uses the pump's own price if set, else the global price", loc(pc),
+               "decided for each of the 8 combinations of (energy_price, energy_pattern, global_pattern) being None / set; patterns are not supported and must raise; "
+               "a price of 0.0 is a price (only None falls back to the global price)", expected="own price if not None else global price", found=badrows[:3])
     pop = repo.func(MISC, "population")
-    ex = SymExec(call_hook=pandas_hook)
+    ex = MX(call_hook=pandas_hook)
     o = ex.run(pop)[0]
-    want = sp.Function("ROUND")(ex.sym("average_expected_demand(wn)") / ex.sym("R"))
+    ac = ev_calls(o, "average_expected_demand")
+    want = sp.Function("ROUND")(ex.sym(ac[0][1] if ac and [ex.text(x) for x in ac[0][2][1]] == ["wn"] and not ac[0][2][2] else "average_expected_demand(wn)") / ex.sym("R"))
     chk.expect(is_zero(ex.S(o.ret) - want), "R-C20-4", "population = round(average expected demand / R)", loc(pop), found=str(o.ret))
     wsa = repo.func(HYDM, "water_service_availability")
-    ex = SymExec(call_hook=pandas_hook)
+    ex = MX(call_hook=pandas_hook)
     o = ex.run(wsa)[0]
     quot = ex.sym("demand") / ex.sym("expected_demand")
     got_ = ex.S(o.ret)
@@ -251,35 +747,16 @@ def run(repo, chk):
     chk.expect(is_zero(got_ - sp.Function("INF_TO_NAN")(quot)) or ".where(" in unparse(wsa), "R-C20-4", "water_service_availability is NaN (not +-inf) where the expected demand is 0, as documented",
                loc(wsa), "demand.div(expected_demand) is +-inf for x / 0 with x != 0 and NaN only for 0 / 0; averages over junctions or time then become inf", found=str(o.ret))
     # ---------------------------------------------------------------- R-C20-6 time grid and period of the expected-demand metrics
-    edf = repo.func(HYDM, "expected_demand")
-    chk.fn(edf)
-    ar = [a for a in walk(edf) if isinstance(a, ast.Assign) and unparse(a.targets[0]) == "tsteps"]
-    if not ar:
-        raise ExtractError("expected_demand: time grid `tsteps` not found")
-    first = unparse(ar[0].value).replace(" ", "")
-    # np.arange(start, end + step, step) overshoots end when (end - start) % step != 0 unless the grid is cut at end_time
-    overshoots = first == "np.arange(start_time,end_time+timestep,timestep)" and not any("<=end_time" in unparse(a.value).replace(" ", "") for a in ar[1:])
-    chk.expect(not overshoots, "R-C20-6", "expected_demand evaluates no time beyond end_time", loc(edf, ar[0]),
-               "np.arange(start, end + step, step) includes one step past end_time whenever the span is not a multiple of the timestep: the table has a row the simulator never reports "
-               "(duration 10 h, report step 3 h: 43200 s > 36000 s)", expected="grid cut at end_time", found=[norm(a) for a in ar])
-    aed = repo.func(HYDM, "average_expected_demand")
-    chk.fn(aed)
-    apps = [c for c in calls(aed) if last_attr(c) == "append" and unparse(c.func.value) == "L"]
-    if not apps:
-        raise ExtractError("average_expected_demand: list of pattern periods not found")
-    guarded = False
-    q = apps[0]
-    while q is not None and q is not aed:
-        pq = getattr(q, "_parent", None)
-        if isinstance(pq, ast.If) and "len(" in unparse(pq.test) and ("> 0" in unparse(pq.test) or "!= 0" in unparse(pq.test) or ">= 1" in unparse(pq.test)):
-            guarded = True
-        q = pq
-    chk.expect(guarded, "R-C20-6", "average_expected_demand leaves patterns without multipliers out of the common period", loc(aed, apps[0]),
+    if fact["cut"] or all_ok("clock"):
+        chk.expect(all_ok("cut"), "R-C20-6", "expected_demand evaluates no time beyond end_time", loc(ed),
+                   "np.arange(start, end + step, step) includes one step past end_time whenever the span is not a multiple of the timestep: the table has a row the simulator never reports "
+                   "(duration 10 h, report step 3 h: 43200 s > 36000 s)", expected="grid cut at end_time", found=first_bad("cut"))
+    chk.expect(bool(terms) and all(g_ for v_, g_, var in terms), "R-C20-6", "average_expected_demand leaves patterns without multipliers out of the common period", loc(aed),
                "an empty pattern is legal (the constant 1.0); its length 0 makes lcm(...) = 0, the averaging window empty and every average NaN", expected="if len(pattern.multipliers) > 0",
-               found=norm(apps[0]))
+               found=[str(v_) for v_, g_, var in terms if not g_][:2])
     td = repo.func(HYDM, "todini_index")
     chk.fn(td)
-    ex = SymExec(call_hook=pandas_hook)
+    ex = MX(call_hook=pandas_hook)
     o = ex.run(td)[0]
     env = {k: Opaque(k) for k in ("head", "pressure", "demand", "flowrate", "wn", "Pstar")}
     J = "wn.junction_name_list"
@@ -292,16 +769,17 @@ def run(repo, chk):
     got = ex.S(o.ret)
     num, den = sp.fraction(sp.together(got))
     chk.expect(is_zero(num - want) or is_zero(num + want), "R-C20-4", "todini_index numerator = sum(demand*head) - sum(demand*(Pstar + elevation)) over junctions", loc(td), found=str(num)[:200])
-    pin = [a for a in den.atoms(sp.Function) if a.func.__name__.startswith("SUM_axis")]
     wres = ref(refx, "%s.sum(axis=1)" % Pres, env)
     wexp = ref(refx, "%s.sum(axis=1)" % Pexp, env)
     rest = sp.simplify(den - wres + wexp) if is_zero(num - want) else sp.simplify(-den - wres + wexp)
     okpump = isinstance(rest, sp.Function) and rest.func.__name__.startswith("SUM_axis") and rest.args[0].has(sp.Abs) and rest.args[0].has(ex.sym("flowrate.loc[(:, wn.pump_name_list)]"))
     chk.expect(okpump, "R-C20-4", "todini_index denominator = reservoir power + pump power (flow * |head gain|) - required power", loc(td), found=str(den)[:250])
-    hs = [e for e in o.events if e[0] == "store" and "[name]" in e[1]]
-    chk.expect(bool(hs) and is_zero(ex.S(hs[0][2]) - (ex.sym("head.loc[(:, link.end_node_name)]") - ex.sym("head.loc[(:, link.start_node_name)]"))), "R-C20-4", "todini_index pump head gain = end head - start head", loc(td))
+    hs = [e for e in o.events if e[0] == "store" and len(e) > 5 and e[5] and e[5][-1][1] == "wn.pumps()" and isinstance(e[2], sp.Basic)]
+    chk.expect(bool(hs) and head_gain_ok(ex, ex.S(hs[0][2]), [nm for nm, i, it in loop_vars(hs[0][5][-1:])]) and
+               any(ex.text(hs[0][7]) == nm and i == 0 for nm, i, it in loop_vars(hs[0][5][-1:])), "R-C20-4", "todini_index pump head gain = end head - start head", loc(td),
+               found=str(hs[0][2]) if hs else None)
     mri = repo.func(HYDM, "modified_resilience_index")
-    ex = SymExec(call_hook=pandas_hook)
+    ex = MX(call_hook=pandas_hook)
     seenm = set()
     for o in ex.run(mri):
         if o.raised or o.ret is None:
@@ -321,69 +799,152 @@ def run(repo, chk):
         chk.expect(is_zero(ex.S(o.ret) - want), "R-C20-4", "modified_resilience_index (%s) = (available - required power) / required power" % ("per junction" if pj[0] else "system"), loc(mri), found=str(o.ret)[:200])
     chk.expect(seenm == {"per", "sys"}, "R-C20-4", "modified_resilience_index: both modes located", loc(mri), found=sorted(seenm))
     tcap = repo.func(HYDM, "tank_capacity")
-    ex = SymExec()
+    ex = MX()
     o = ex.run(tcap)[0]
-    st = [e for e in o.events if e[0] == "store" and e[1].endswith("[name]")]
-    okt = bool(st) and is_zero(ex.S(st[0][2]) - ex.sym("wn.get_node(name).get_volume(pressure[name])") / ex.sym("wn.get_node(name).get_volume(wn.get_node(name).max_level)"))
+    st = [e for e in o.events if e[0] == "store" and len(e) > 5 and e[5] and isinstance(e[2], sp.Basic)]
+    okt = False
+    if st:
+        lv = loop_vars(st[0][5][-1:])
+        it = st[0][5][-1][1]
+        # the tank object of the iteration: 2nd loop variable over the (name, tank) registry iterator, or wn.get_node(name) over the name list
+        pair = None
+        if it == "wn.tank_name_list" and len(lv) == 1:
+            pair = (lv[0][0], "wn.get_node(%s)" % lv[0][0])
+        elif it in ("wn.tanks()", "wn.nodes(Tank)", "wn.nodes(wntr.network.Tank)", "wn.nodes(wntr.network.elements.Tank)") and len(lv) == 2:
+            pair = (lv[0][0], lv[1][0])
+        if pair:
+            nm, tk = pair
+            okt = ex.text(st[0][7]) == nm and is_zero(ex.S(st[0][2]) - ex.sym("%s.get_volume(pressure[%s])" % (tk, nm)) / ex.sym("%s.get_volume(%s.max_level)" % (tk, tk)))
     chk.expect(okt, "R-C20-4", "tank_capacity = V(level) / V(max_level), level = tank pressure", loc(tcap), found=str(st[0][2]) if st else None)
+
+    # ---------------------------------------------------------------- annual totals: look-ups (R-C20-5) and the maximum pump power (R-C20-4)
     anc = repo.func(ECON, "annual_network_cost")
-    chk.fn(anc)
-    pm = [s for s in walk(anc) if isinstance(s, ast.Assign) and dotted(s.targets[0]) == "Pmax" and "np.exp" in unparse(s.value)]
-    okpm = False
-    if pm:
-        ex = SymExec(call_hook=pandas_hook, assume=lambda t: {"positive": True})
-        v = ex.S(ex.ev(pm[0].value, State({"A": Opaque("A"), "B": Opaque("B"), "C": Opaque("C")})))
-        A, B_, C = ex.sym("A"), ex.sym("B"), ex.sym("C")
-        q = sp.exp(sp.log(A / (B_ * (C + 1))) / C)
-        okpm = is_zero(v - sp.Rational("9.81") * 1000 * q * (A - B_ * q ** C))
-    chk.expect(okpm, "R-C20-4", "maximum pump power = g*rho*q*(A - B*q^C) at q = (A/(B*(C+1)))^(1/C) (before dividing by the efficiency)", loc(anc), found=unparse(pm[0].value)[:160] if pm else None)
+    ghg = repo.func(ECON, "annual_ghg_emissions")
+    chk.fn(anc, ghg)
+    PIPES, TANKS, VALVES = ("wn.links(Pipe)", "wn.pipes()"), ("wn.nodes(Tank)", "wn.tanks()"), ("wn.links(Valve)", "wn.valves()")
+    tables = ("tank_cost", "pipe_cost", "prv_cost", "pump_cost", "pipe_ghg")
+
+    def given(txt, test, st):     # the tables are passed in: keep them symbolic
+        for t in tables:
+            r = tv_text(txt, {t: False})
+            if r is not None:
+                return r
+        return None
+    nsel = 0
+    okpm, foundpm = None, None
+    sums_ok, sums_found = True, None
+    for fn, label in ((anc, "annual_network_cost"), (ghg, "annual_ghg_emissions")):
+        ex = MX(call_hook=pandas_hook, assume=lambda t: {"positive": True}, test_hook=given)
+        paths = [o for o in ex.run(fn) if not o.raised and o.ret is not None]
+        if not paths:
+            raise ExtractError("%s: no returning path" % label)
+        seen_sel = {}
+        for o in paths:
+            lk = lookups(ex, o, ex.S(o.ret))
+            got = []
+            for d in lk:
+                var2 = [nm for nm, i, it in d["vars"] if i == 1]
+                v2 = var2[0] if var2 else "?"
+                kind = None
+                eff = ex.sym("wn.options.energy.global_efficiency")
+                if d["loop"] in PIPES:
+                    kind = "pipe"
+                    okv = d["value"] is not None and is_zero(d["value"] - ex.sym(v2 + ".diameter")) and is_zero(d["mult"] - ex.sym(v2 + ".length"))
+                    okt_ = d["table"] == ("pipe_cost" if fn is anc else "pipe_ghg")
+                elif d["loop"] in TANKS:
+                    kind = "tank"
+                    okv = d["value"] is not None and d["value"].has(ex.sym(v2 + ".max_level")) and d["mult"] == 1
+                    okt_ = d["table"] == "tank_cost"
+                elif d["loop"] == "wn.head_pumps()":
+                    kind = "head pump"
+                    okv = d["value"] is not None and d["mult"] == 1
+                    okt_ = d["table"] == "pump_cost"
+                    if d["value"] is not None:
+                        A, B_, C = [ex.sym("%s.get_head_curve_coefficients()[%d]" % (v2, i)) for i in range(3)]
+                        q = sp.exp(sp.log(A / (B_ * (C + 1))) / C)
+                        wantp = sp.Rational("9.81") * 1000 * q * (A - B_ * q ** C)
+                        okpm = (okpm is not False) and (is_zero(d["value"] * eff - wantp) or is_zero(d["value"] * eff / 100 - wantp) or is_zero(d["value"] - wantp))
+                        foundpm = str(d["value"])[:160]
+                elif d["loop"] == "wn.power_pumps()":
+                    kind = "power pump"
+                    okv = d["value"] is not None and d["mult"] == 1 and (is_zero(d["value"] * eff - ex.sym(v2 + ".power")) or is_zero(d["value"] * eff / 100 - ex.sym(v2 + ".power")))
+                    okt_ = d["table"] == "pump_cost"
+                elif d["loop"] in VALVES:
+                    kind = "PRV"
+                    isprv = any(_str_cmp(t, v2 + ".valve_type", "PRV") is not None and _str_cmp(t, v2 + ".valve_type", "PRV") == bool(v) for t, v in o.conds)
+                    okv = d["value"] is not None and is_zero(d["value"] - ex.sym(v2 + ".diameter")) and d["mult"] == 1 and isprv
+                    okt_ = d["table"] == "prv_cost"
+                else:
+                    okv = okt_ = False
+                got.append(kind or d["loop"])
+                key = kind or d["text"][:40]
+                prev = seen_sel.get(key, (True, True, ""))
+                seen_sel[key] = (prev[0] and d["sel_ok"] and okt_, prev[1] and okv and okt_, d["how"] or str(d["value"])[:80] + " * " + str(d["mult"]))
+            if fn is anc:
+                prv_path = any("valve_type" in t for t, v in o.conds) and "PRV" in got
+                wantk = ["tank", "pipe", "head pump", "power pump"] + (["PRV"] if prv_path else [])
+                if sorted(got) != sorted(wantk):
+                    sums_ok, sums_found = False, sorted(got)
+            else:
+                chk.expect(sorted(got) == ["pipe"] and seen_sel.get("pipe", (0, 0))[1], "R-C20-5", "annual_ghg_emissions adds emission factor * length per pipe", loc(ghg), found=seen_sel.get("pipe", ("", "", sorted(got)))[2])
+        if fn is anc:
+            sums_ok = sums_ok and all(k in seen_sel and seen_sel[k][1] for k in ("tank", "pipe", "head pump", "power pump", "PRV"))
+            chk.expect(sums_ok, "R-C20-5", "annual_network_cost adds tank + pipe(cost * length) + pump + PRV costs", loc(anc),
+                       "each term is the cost looked up for the element's own size (construction volume, diameter, maximum power / efficiency, PRV diameter); only pipes are costed per metre",
+                       found=sums_found or [(k, v[2]) for k, v in seen_sel.items() if not v[1]][:3])
+        for k, v in sorted(seen_sel.items()):
+            nsel += 1
+            chk.expect(v[0], "R-C20-5", "%s selects the nearest table entry by argmin |index - value| [%s]" % (label, k), loc(fn), expected="table.iloc[np.argmin(|table.index - value|)]", found=v[2])
+    chk.expect(okpm is True, "R-C20-4", "maximum pump power = g*rho*q*(A - B*q^C) at q = (A/(B*(C+1)))^(1/C) (before dividing by the efficiency)", loc(anc), found=foundpm)
     chk.floor("R-C20-4", 12)
 
     # ---------------------------------------------------------------- R-C20-5 documented tables
     doc = ast.get_docstring(anc) or ""
-    for var, header, unit_in, idxname, listname in (("tank_cost", "Volume (m3)", False, "volume", "cost"), ("pipe_cost", "Annual Cost ($/m/yr)", True, "diameter", "cost"),
-                                                    ("pump_cost", "Maximum power (W)", False, "Pmp", "cost")):
+    close = lambda a, b, tol: len(a) == len(b) and all(abs(x - y) <= tol for x, y in zip(a, b))
+    for var, header, unit_in in (("tank_cost", "Volume (m3)", False), ("pipe_cost", "Annual Cost ($/m/yr)", True), ("pump_cost", "Maximum power (W)", False)):
         rows = rst_table(doc, header)
-        vals = list_assign(anc, var, var)
+        vals = default_table(repo, ECON, anc, var)
         if rows is None or vals is None:
             chk.bad("R-C20-5", "annual_network_cost: table and defaults for %s located" % var, loc(anc), found=(rows is not None, vals is not None))
             continue
-        idx = [const(e) for e in vals[idxname][0].elts]
-        cost = [const(e) for e in vals[listname][0].elts]
+        idx, cost = vals
         doc_idx = [r[0] for r in rows]
         doc_cost = [r[-1] for r in rows]
-        chk.expect([float(x) for x in idx] == doc_idx and [float(x) for x in cost] == doc_cost, "R-C20-5", "annual_network_cost default %s equals the table in its docstring" % var, loc(anc),
-                   expected=list(zip(doc_idx, doc_cost))[:4], found=list(zip(idx, cost))[:4])
         if unit_in:
-            scale = vals[idxname][1] if len(vals[idxname]) > 1 else None
-            chk.expect(scale is not None and "0.0254" in unparse(scale), "R-C20-5", "%s diameters are converted from inches to metres (x 0.0254)" % var, loc(anc))
+            chk.expect(cost == doc_cost and close(idx, [x * 0.0254 for x in doc_idx], 1e-9), "R-C20-5", "annual_network_cost default %s equals the table in its docstring" % var, loc(anc),
+                       expected=list(zip(doc_idx, doc_cost))[:4], found=list(zip(idx, cost))[:4])
+            chk.expect(close(idx, [x * 0.0254 for x in doc_idx], 1e-9), "R-C20-5", "%s diameters are converted from inches to metres (x 0.0254)" % var, loc(anc), found=idx[:4])
             chk.expect(all(abs(r[0] * 0.0254 - r[1]) < 6e-4 for r in rows), "R-C20-5", "%s docstring metre column = inches * 0.0254" % var, loc(anc))
+        else:
+            chk.expect(idx == doc_idx and cost == doc_cost, "R-C20-5", "annual_network_cost default %s equals the table in its docstring" % var, loc(anc),
+                       expected=list(zip(doc_idx, doc_cost))[:4], found=list(zip(idx, cost))[:4])
     # the PRV table is the second "Annual Cost ($/m/yr)" table
     parts = doc.split("prv_cost :")
     if len(parts) == 2:
         rows = rst_table(parts[1], "Annual Cost ($/m/yr)")
-        vals = list_assign(anc, "prv_cost", "prv_cost")
-        okv = rows is not None and vals is not None and [float(const(e)) for e in vals["diameter"][0].elts] == [r[0] for r in rows] and [float(const(e)) for e in vals["cost"][0].elts] == [r[-1] for r in rows]
+        vals = default_table(repo, ECON, anc, "prv_cost")
+        okv = rows is not None and vals is not None and close(vals[0], [r[0] * 0.0254 for r in rows], 1e-9) and vals[1] == [r[-1] for r in rows]
         chk.expect(okv, "R-C20-5", "annual_network_cost default prv_cost equals the table in its docstring", loc(anc))
-    ghg = repo.func(ECON, "annual_ghg_emissions")
-    chk.fn(ghg)
     rows = rst_table(ast.get_docstring(ghg) or "", "Diameter (mm)")
-    vals = list_assign(ghg, "pipe_ghg", "pipe_ghg")
-    okg = rows is not None and vals is not None and [float(const(e)) for e in vals["cost"][0].elts] == [r[-1] for r in rows] and \
-        all(abs(const(e) * 25.4 - r[0]) < 0.6 for e, r in zip(vals["diameter"][0].elts, rows))
+    vals = default_table(repo, ECON, ghg, "pipe_ghg")
+    okg = rows is not None and vals is not None and vals[1] == [r[-1] for r in rows] and close([x * 1000 for x in vals[0]], [r[0] for r in rows], 0.6)
     chk.expect(okg, "R-C20-5", "annual_ghg_emissions default table equals the table in its docstring (inches * 25.4 = mm)", loc(ghg))
-    nsel = 0
-    for fn in (anc, ghg):
-        for c in calls(fn, name="np.argmin"):
-            nsel += 1
-            t = unparse(c.args[0]).replace(" ", "")
-            chk.expect(re.fullmatch(r"\[?np\.abs\((\w+)\.index-[\w\.]+\)\]?", t) is not None, "R-C20-5", "%s selects the nearest table entry by argmin |index - value| [%s]" % (fn.name, t[:50]), loc(fn, c), found=t)
     chk.floor("R-C20-5", 6 + 5, count=nsel + 6)
-    # the sum: cost * length for pipes, plain cost for tanks / pumps / PRVs
-    srca = unparse(anc)
-    chk.expect("network_cost + pipe_cost.iloc[idx] * link.length" in srca and "network_cost + tank_cost.iloc[idx]" in srca and "network_cost + pump_cost.iloc[idx]" in srca and "network_cost + prv_cost.iloc[idx]" in srca,
-               "R-C20-5", "annual_network_cost adds tank + pipe(cost * length) + pump + PRV costs", loc(anc))
-    chk.expect("network_ghg + pipe_ghg.iloc[idx] * link.length" in unparse(ghg), "R-C20-5", "annual_ghg_emissions adds emission factor * length per pipe", loc(ghg))
+
+
+def _str_cmp(text, atom, value):
+    """truth of the condition text when `atom` holds the string `value` (None if it is not a comparison of atom with string constants)"""
+    try:
+        n = ast.parse(text, mode="eval").body
+    except SyntaxError:
+        return None
+    if isinstance(n, ast.Compare) and len(n.ops) == 1 and unparse(n.left) == atom:
+        r = n.comparators[0]
+        if isinstance(n.ops[0], (ast.Eq, ast.NotEq)) and isinstance(r, ast.Constant) and isinstance(r.value, str):
+            return (value == r.value) == isinstance(n.ops[0], ast.Eq)
+        if isinstance(n.ops[0], (ast.In, ast.NotIn)) and isinstance(r, (ast.Tuple, ast.List, ast.Set)) and all(isinstance(x, ast.Constant) for x in r.elts):
+            return (value in [x.value for x in r.elts]) == isinstance(n.ops[0], ast.In)
+    return None
 
 
 WITNESSES = [
@@ -399,4 +960,88 @@ WITNESSES = [
     dict(name="mri-denominator", file=HYDM, old="        mri = (Pout - Pexp)/Pexp", new="        mri = (Pout - Pexp)/Pout", rule="R-C20-4"),
     dict(name="tank-capacity-min", file=HYDM, old="        max_volume = tank.get_volume(tank.max_level)", new="        max_volume = tank.get_volume(tank.max_level) - tank.get_volume(tank.min_level)", rule="R-C20-4"),
     dict(name="population-no-round", file=MISC, old="    return pop.round()", new="    return pop", rule="R-C20-4"),
+    dict(name="gcd-return-inside-loop", file=HYDM, old="    x,y=y,x % y\n  return x", new="    x,y=y,x % y\n    return x", rule="R-C20-1"),
+    dict(name="pump-price-or-fallback", file=ECON, old="                price_dict[pump_name] = [pump.energy_price for i in time]",
+         new="                price_dict[pump_name] = [pump.energy_price or wn.options.energy.global_price for i in time]", rule="R-C20-4"),
+    dict(name="pump-price-global-pattern-ignored", file=ECON,
+         old="            if wn.options.energy.global_pattern is None:\n                price_dict[pump_name] = [pump.energy_price for i in time]\n            else:\n"
+             "                raise NotImplementedError('WNTR does not support price patterns yet.')\n",
+         new="            price_dict[pump_name] = [pump.energy_price for i in time]\n", rule="R-C20-4"),
+    dict(name="pmax-exponent", file=ECON, old="(A - B*(np.exp(np.log(A/(B*(C+1)))/C))**C)", new="(A - B*(np.exp(np.log(A/(B*(C+1)))/C))**(C+1))", rule="R-C20-4"),
+    dict(name="pipe-cost-not-per-metre", file=ECON, old="pipe_cost.iloc[idx]*link.length", new="pipe_cost.iloc[idx]", rule="R-C20-5"),
+    dict(name="prv-looked-up-by-pipe-index", file=ECON, old="np.abs(prv_cost.index - link.diameter)", new="np.abs(pipe_cost.index - link.diameter)", rule="R-C20-5"),
+    dict(name="nearest-entry-argmax", file=ECON, old="idx = np.argmin([np.abs(pipe_ghg.index - link.diameter)])", new="idx = np.argmax([np.abs(pipe_ghg.index - link.diameter)])", rule="R-C20-5"),
+    dict(name="demand-clock-without-pattern-start", file=HYDM, old="ts + wn.options.time.pattern_start, ", new="ts, ", rule="R-C20-2"),
+    dict(name="period-without-24h", file=HYDM, old="    L = [24*3600]", new="    L = [12*3600]", rule="R-C20-2"),
+    dict(name="average-over-junctions", file=HYDM, old="exp_demand.mean(axis=0)", new="exp_demand.mean(axis=1)", rule="R-C20-2"),
+    dict(name="ghg-inches-conversion", file=ECON, old="# inches\n        diameter = np.array(diameter)*0.0254 # m", new="# inches\n        diameter = np.array(diameter)*0.0245 # m", rule="R-C20-5"),
+    # ---- behaviour-preserving variants that must stay quiet
+    dict(name="quiet-expected-demand-comprehension-hoisted-locals", file=HYDM, silent=True,
+         old="        dem = []\n        for ts in tsteps:\n            dem.append(junc.demand_timeseries_list.at(ts + wn.options.time.pattern_start, \n"
+             "                       multiplier=wn.options.hydraulic.demand_multiplier, category=category))\n        exp_demand[name] = dem \n",
+         new="        demands = junc.demand_timeseries_list\n        mult = wn.options.hydraulic.demand_multiplier\n        offset = wn.options.time.pattern_start\n"
+             "        exp_demand[name] = [demands.at(t + offset, multiplier=mult, category=category) for t in tsteps]\n"),
+    dict(name="quiet-expected-demand-guard-clauses-for-defaults", file=HYDM, silent=True,
+         old="    if start_time is None:\n        start_time = 0\n    if end_time is None:\n        end_time = wn.options.time.duration\n",
+         new="    start_time = 0 if start_time is None else start_time\n    if end_time is not None:\n        pass\n    else:\n        end_time = wn.options.time.duration\n"),
+    dict(name="quiet-period-list-renamed-early-continue", file=HYDM, silent=True,
+         old="    L = [24*3600] # start with a 24 hour pattern\n    for name, pattern in wn.patterns():\n        if len(pattern.multipliers) > 0:  # an empty pattern is the constant 1.0 and has no period\n"
+             "            L.append(len(pattern.multipliers)*wn.options.time.pattern_timestep)\n    lcm = int(_lcml(L))\n",
+         new="    periods = [24*3600]\n    for _, pat in wn.patterns():\n        n = len(pat.multipliers)\n        if n == 0:\n            continue\n"
+             "        periods.append(n*wn.options.time.pattern_timestep)\n    lcm = int(_lcml(periods))\n"),
+    dict(name="quiet-period-list-comprehension", file=HYDM, silent=True,
+         old="    L = [24*3600] # start with a 24 hour pattern\n    for name, pattern in wn.patterns():\n        if len(pattern.multipliers) > 0:  # an empty pattern is the constant 1.0 and has no period\n"
+             "            L.append(len(pattern.multipliers)*wn.options.time.pattern_timestep)\n    lcm = int(_lcml(L))\n",
+         new="    step = wn.options.time.pattern_timestep\n    periods = [24*3600] + [len(p.multipliers)*step for _, p in wn.patterns() if len(p.multipliers) != 0]\n    lcm = int(_lcml(periods))\n"),
+    dict(name="quiet-gcd-renamed-and-restructured", file=HYDM, silent=True,
+         old="def _gcd(x,y):\n  while y:\n    if y<0:\n      x,y=-x,-y\n    x,y=y,x % y\n  return x\n",
+         new="def _gcd(a, b):\n    a, b = abs(a), abs(b)\n    while b != 0:\n        r = a % b\n        a = b\n        b = r\n    return a\n"),
+    dict(name="quiet-pump-cost-guard-clauses", file=ECON, silent=True,
+         old="        if pump.energy_price is None and pump.energy_pattern is None:\n            if wn.options.energy.global_pattern is None:\n"
+             "                price_dict[pump_name] = [wn.options.energy.global_price for i in time]\n            else:\n"
+             "                raise NotImplementedError('WNTR does not support price patterns yet.')\n        elif pump.energy_pattern is None:\n"
+             "            if wn.options.energy.global_pattern is None:\n                price_dict[pump_name] = [pump.energy_price for i in time]\n            else:\n"
+             "                raise NotImplementedError('WNTR does not support price patterns yet.')\n        else:\n"
+             "            raise NotImplementedError('WNTR does not support price patterns yet.')\n",
+         new="        if pump.energy_pattern is not None or wn.options.energy.global_pattern is not None:\n"
+             "            raise NotImplementedError('WNTR does not support price patterns yet.')\n"
+             "        if pump.energy_price is None:\n            unit_price = wn.options.energy.global_price\n        else:\n            unit_price = pump.energy_price\n"
+             "        price_dict[pump_name] = [unit_price for i in time]\n"),
+    dict(name="quiet-pump-cost-conditional-expression", file=ECON, silent=True,
+         old="        if pump.energy_price is None and pump.energy_pattern is None:\n            if wn.options.energy.global_pattern is None:\n"
+             "                price_dict[pump_name] = [wn.options.energy.global_price for i in time]\n            else:\n"
+             "                raise NotImplementedError('WNTR does not support price patterns yet.')\n        elif pump.energy_pattern is None:\n"
+             "            if wn.options.energy.global_pattern is None:\n                price_dict[pump_name] = [pump.energy_price for i in time]\n            else:\n"
+             "                raise NotImplementedError('WNTR does not support price patterns yet.')\n        else:\n"
+             "            raise NotImplementedError('WNTR does not support price patterns yet.')\n",
+         new="        if not (pump.energy_pattern is None and wn.options.energy.global_pattern is None):\n"
+             "            raise NotImplementedError('WNTR does not support price patterns yet.')\n"
+             "        price_dict[pump_name] = [pump.energy_price if pump.energy_price is not None else wn.options.energy.global_price for i in time]\n"),
+    dict(name="quiet-pump-power-guard-clause-percent-temporary", file=ECON, silent=True,
+         old="        if pump.efficiency is None:\n            efficiency_dict[pump_name] = [wn.options.energy.global_efficiency/100.0 for i in time]\n        else:\n"
+             "            raise NotImplementedError('WNTR does not support pump efficiency curves yet.')\n",
+         new="        if pump.efficiency is not None:\n            raise NotImplementedError('WNTR does not support pump efficiency curves yet.')\n"
+             "        percent = wn.options.energy.global_efficiency\n        efficiency_dict[pump_name] = [percent/100.0 for i in time]\n"),
+    dict(name="quiet-todini-pump-loop-renamed-inlined", file=HYDM, silent=True,
+         old="    for name, link in wn.pumps():\n        start_node = link.start_node_name\n        end_node = link.end_node_name\n        start_head = head.loc[:,start_node] # (m)\n"
+             "        end_head = head.loc[:,end_node] # (m)\n        headloss[name] = end_head - start_head # (m)\n",
+         new="    for pump_name, pump in wn.pumps():\n        headloss[pump_name] = head.loc[:,pump.end_node_name] - head.loc[:,pump.start_node_name]\n"),
+    dict(name="quiet-tank-capacity-registry-iterator", file=HYDM, silent=True,
+         old="    for name in wn.tank_name_list:\n        tank = wn.get_node(name)\n", new="    for tank_name, t in wn.tanks():\n        name = tank_name\n        tank = t\n"),
+    dict(name="quiet-closest-entry-helper-extracted", file=ECON, silent=True,
+         old="def annual_network_cost(wn, tank_cost=None",
+         new="def _closest_entry(table, value):\n    pos = np.argmin([np.abs(table.index - value)])\n    return table.iloc[pos]\n\ndef annual_network_cost(wn, tank_cost=None",
+         also=[("        idx = np.argmin([np.abs(tank_cost.index - tank_construction_volume)])\n        #print(node_name, tank_cost.iloc[idx])\n        network_cost = network_cost + tank_cost.iloc[idx]\n",
+                "        network_cost = network_cost + _closest_entry(tank_cost, tank_construction_volume)\n"),
+               ("        idx = np.argmin([np.abs(pipe_ghg.index - link.diameter)])\n        #print(link_name, link.diameter, pipe_ghg.iloc[idx],link.length)\n        network_ghg = network_ghg + pipe_ghg.iloc[idx]*link.length\n",
+                "        network_ghg += link.length*_closest_entry(pipe_ghg, link.diameter)\n")]),
+    dict(name="quiet-pmax-flow-hoisted-coefficients-unpacked", file=ECON, silent=True,
+         old="        Pmax = 9.81*1000*np.exp(np.log(A/(B*(C+1)))/C)*(A - B*(np.exp(np.log(A/(B*(C+1)))/C))**C)\n",
+         new="        Qmax = np.exp(np.log(A/(B*(C+1)))/C)\n        Pmax = 9.81*1000*Qmax*(A - B*Qmax**C)\n",
+         also=[("        coeff = link.get_head_curve_coefficients()\n        A = coeff[0]\n        B = coeff[1]\n        C = coeff[2]\n", "        A, B, C = link.get_head_curve_coefficients()\n")]),
+    dict(name="quiet-default-tables-renamed-locals", file=ECON, silent=True,
+         old="        volume = [500, 1000, 2000, 3750, 5000, 10000] \n        cost =  [14020, 30640, 61210, 87460, 122420, 174930]\n        tank_cost = pd.Series(cost, volume)\n",
+         new="        tank_cost = pd.Series(index=[500, 1000, 2000, 3750, 5000, 10000], data=[14020, 30640, 61210, 87460, 122420, 174930])\n",
+         also=[("        Pmp = [11310, 22620, 24880, 31670, 38000, 45240, 49760, 54280, 59710]\n        cost =  [2850, 3225, 3307, 3563, 3820, 4133, 4339, 4554, 4823]\n        pump_cost = pd.Series(cost, Pmp)\n",
+                "        max_power = [11310, 22620, 24880, 31670, 38000, 45240, 49760, 54280, 59710]\n        annual = [2850, 3225, 3307, 3563, 3820, 4133, 4339, 4554, 4823]\n        pump_cost = pd.Series(annual, max_power)\n")]),
 ]
